@@ -1,6 +1,6 @@
 (* C09 — Rules hold on every reported row and fire on their schedule. *)
 From Coq Require Import ZArith Reals List Bool Arith Sorted.
-From BS Require Import Base.Arith Model.Term Model.Propensity Model.Interface Model.Rules Model.Random Model.SSA Proofs.RuleProofs Proofs.RuleCount Proofs.RuleRows Proofs.VolumeRuleCount Proofs.LineageRuleCount Proofs.DelayRuleCount Proofs.DvRuleCount Proofs.RuleSchedule Model.Queue Model.Splitters Model.Lineage.
+From BS Require Import Base.Arith Model.Term Model.Propensity Model.Interface Model.Rules Model.Random Model.SSA Proofs.RuleProofs Proofs.RuleCount Proofs.RuleRows Proofs.VolumeRuleCount Proofs.LineageRuleCount Proofs.DelayRuleCount Proofs.DvRuleCount Proofs.RuleSchedule Model.Queue Model.Splitters Model.Lineage Base.CyPrelude Gen.RulesGen Proofs.TieRules.
 Import ListNotations.
 
 (* Expression evaluation depends only on the species the expression reads (any arithmetic). *)
@@ -190,6 +190,21 @@ Proof. exact lineage_dt_rules_next_iteration. Qed.
 (* Not mechanised (C09_partial): the counting statement for the deterministic post-pass, and the scheduled-rule
    clause over whole runs of the loops other than the SSA loop -- decided by the stream replay and the harness oracle (counter, ODE and scheduled rules). *)
 
+From Coq Require Import String.
+(* ---- Tie to the CURRENT source: the conditions under which Rule.execute_rule / Rule.execute_volume_rule call the rule's operation are
+   regenerated from bioscrape/types.pyx on this run (Gen/RulesGen.v, tools/tr_rules.py) and equal the model's firing predicate `fires`
+   for ANY arithmetic (repeat = -1, at a time = equality with the clock, dt = -2 together with the rule_step flag); what is handed on to
+   the operation is the caller's own state, parameters, (volume,) time and dt. *)
+Theorem C09_source_firing :
+  forall F (A : Arith F) (r : rule F) (time dt volume : F) (rule_step : nat),
+  gen_Rule_execute_rule_guard A {| Rule_frequency_flag := ru_freq r |} time dt rule_step = fires A r time (negb (Nat.eqb rule_step 0)) /\
+  gen_Rule_execute_volume_rule_guard A {| Rule_frequency_flag := ru_freq r |} volume time dt rule_step = fires A r time (negb (Nat.eqb rule_step 0)).
+Proof. exact tie_rule_guards. Qed.
+Theorem C09_source_passes :
+  gen_execute_rule_passes = ["state"; "params"; "time"; "dt"]%string /\
+  gen_execute_volume_rule_passes = ["state"; "params"; "volume"; "time"; "dt"]%string.
+Proof. exact tie_rule_passes. Qed.
+
 Print Assumptions C09_eval_frame.
 Print Assumptions C09_assignment_fixpoint.
 Print Assumptions C09_rows_are_rule_applied.
@@ -208,3 +223,5 @@ Print Assumptions C09_delay_volume_dt_rules_once_per_step.
 Print Assumptions C09_delay_volume_dt_rules_every_boundary.
 Print Assumptions C09_lineage_dt_rules_once_per_step.
 Print Assumptions C09_lineage_dt_rules_next_iteration.
+Print Assumptions C09_source_firing.
+Print Assumptions C09_source_passes.
